@@ -390,8 +390,12 @@ def build_optimized_tables(
     # Build element numbering using topological ordering so subelements
     # get priority
     all_elements = [res[0] for res in analysis.values()]
+    # NOTE: remove duplicates keeping the order of first use; iterating over a
+    # set would make the FE<n> table names depend on the hash seed
     unique_elements = ufl.algorithms.sort_elements(
-        set(ufl.algorithms.analysis.extract_sub_elements(all_elements))
+        ufl.algorithms.analysis.unique_tuple(
+            ufl.algorithms.analysis.extract_sub_elements(all_elements)
+        )
     )
     element_numbers = {element: i for i, element in enumerate(unique_elements)}
     mt_tables: dict[str | ModifiedTerminal, UniqueTableReferenceT] = {}
